@@ -177,6 +177,10 @@ def run_impl(case, dtypes=None, gdtype=None):
     try:
         for o, g in zip(outs, gs):
             o.backward(sg.Tensor(np.array(g, dtype=gdtype or np.float64)))
+        if case.get("twice"):        # a second graph over the same leaves: gradients accumulate
+            out2 = forward_impl(case, tensors)
+            for o, g in zip(list(out2) if isinstance(out2, (tuple, list)) else [out2], gs):
+                o.backward(sg.Tensor(np.array(g, dtype=gdtype or np.float64)))
         grads = []
         for t in (tensors[:1] if case.get("dup") else tensors):
             grads.append(t._grad if t._grad is not None else np.zeros(t.shape))
@@ -188,6 +192,8 @@ def run_impl(case, dtypes=None, gdtype=None):
 
 
 def coq_case(case, gs):
+    if case.get("twice"):
+        return "KTwice (%s)" % coq_case({k: v for k, v in case.items() if k != "twice"}, gs)
     if case.get("dup"):
         return "KDup (%s)" % coq_case({k: v for k, v in case.items() if k != "dup"}, gs)
     op = case["op"]
@@ -217,6 +223,8 @@ def describe(case):
     d = {"op": case["op"], "shapes": [list(np.asarray(o).shape) for o in case["operands"]]}
     if case.get("dup"):
         d["dup"] = True
+    if case.get("twice"):
+        d["twice"] = True
     if case.get("args"):
         d["args"] = {k: (list(v) if isinstance(v, tuple) else v) for k, v in case["args"].items()}
     return d
@@ -236,7 +244,7 @@ def case_from_json(d):
     if isinstance(args.get("dim"), list):
         args["dim"] = tuple(args["dim"])
     ops = [np.array(o, dtype=np.float64).reshape(s) for o, s in zip(d["operands"], d["shapes"])]
-    return {"op": d["op"], "operands": ops, "args": args, "gseed": d.get("gseed", 1), "dup": d.get("dup", False)}
+    return {"op": d["op"], "operands": ops, "args": args, "gseed": d.get("gseed", 1), "dup": d.get("dup", False), "twice": d.get("twice", False)}
 
 
 # ------------------------------------------------------------------------------------------------
@@ -427,6 +435,27 @@ def gen_same_operand(ctx, dat):
         if len(sh) == 2:
             add("linear", sh, 2)
             add("linear", sh, 3)
+    # the op built and back-propagated twice over the same leaves
+    tw = [{"op": "add", "operands": [dat.arr((2, 3)), dat.arr((3,))]}, {"op": "mul", "operands": [dat.arr((2, 1)), dat.arr((2, 3))]},
+          {"op": "matmul", "operands": [dat.arr((2, 2, 3), lo=-9, hi=9), dat.arr((3, 2), lo=-9, hi=9)]},
+          {"op": "addmm", "operands": [dat.arr((2,)), dat.arr((2, 3), lo=-9, hi=9), dat.arr((3, 2), lo=-9, hi=9)]},
+          {"op": "linear", "operands": [dat.arr((2, 2, 3), lo=-9, hi=9), dat.arr((2, 3), lo=-9, hi=9), dat.arr((2,))]},
+          {"op": "linear", "operands": [dat.arr((2, 3), lo=-9, hi=9), dat.arr((2, 3), lo=-9, hi=9)]},
+          {"op": "concat", "operands": [dat.arr((2, 3)), dat.arr((1, 3))], "args": {"dim": 0}},
+          {"op": "stack", "operands": [dat.arr((2,)), dat.arr((2,))], "args": {"dim": 1}},
+          {"op": "unbind", "operands": [dat.arr((2, 3))], "args": {"dim": -1}},
+          {"op": "ov", "operands": [dat.arr((2, 3))], "args": {"which": "rsub", "c": 2}},
+          {"op": "ov", "operands": [dat.arr((2, 3))], "args": {"which": "mul", "c": -3}}]
+    for op in ("sum", "mean", "max", "min"):
+        for dim in (None, 1, (0, -1)):
+            if op in ("max", "min") and isinstance(dim, tuple):
+                continue
+            tw.append({"op": op, "operands": [dat.arr((2, 3), unit=MEAN_UNIT if op == "mean" else 1)], "args": {"dim": dim, "keepdims": False}})
+    for c in tw:
+        seed += 1
+        c["gseed"] = seed
+        c["twice"] = True
+        cases.append(c)
     for sh in [(2,), (2, 3), (1, 2, 2)]:
         for dim in range(-len(sh), len(sh)):
             add("concat", sh, 2, {"dim": dim})
@@ -666,7 +695,7 @@ def fd_grads(case, info):
             xm = [y.copy() for y in ops]
             xp[k][idx] += h
             xm[k][idx] -= h
-            gr[idx] = (L(xp) - L(xm)) / (2 * h)
+            gr[idx] = (L(xp) - L(xm)) / (2 * h) * (2 if case.get("twice") else 1)
         res.append(gr)
     _impl().reset_modes()
     return res
@@ -683,7 +712,8 @@ def torch_grads(case, info):
     loss.backward()
     if case.get("dup"):
         ts = ts[:1]
-    return [t.grad.numpy() if t.grad is not None else _impl().np.zeros(tuple(t.shape)) for t in ts]
+    k = 2 if case.get("twice") else 1
+    return [k * t.grad.numpy() if t.grad is not None else _impl().np.zeros(tuple(t.shape)) for t in ts]
 
 
 def has_ties(case):
